@@ -161,7 +161,7 @@ Section Election.
 
   Lemma step_msgs_incl n l n' : step V n l n' -> incl (msgs n) (msgs n').
   Proof.
-    intros H. inv_step H; intros m Hm; simpl; auto.
+    intros H. inv_step H; intros ? Hm; simpl; auto.
   Qed.
 
   Lemma step_term_mono n l n' i : step V n l n' -> term (nodes n i) <= term (nodes n' i).
